@@ -1,3 +1,161 @@
 import Driver.Common
-/-! Model driver for C05 — not built yet. -/
-def main (_args : List String) : IO Unit := pure ()
+import Logrange.Model.Where
+import Logrange.Model.FIter
+/-! Model driver for C05 (WHERE evaluation). Requests (byte strings hex, `-` = empty):
+
+* `case U|L <in> <out>`       — one entry of Go's strings.ToUpper / ToLower for a non-ASCII string → `ok`
+* `tslit <value> <int|err>`   — what the real time-literal parser answers for a condition value → `ok`
+* `reset`                     — forget tables, expression, iterator
+* `expr <ast…>` / `noexpr`    — set the current WHERE expression (noexpr = nil expression);
+                                 answer `build=<ok|err:kind> supported=<0|1> wf=<0|1>`
+    ast:  Expr  = `E <n> And*n`     And = `A <n> X*n`
+          X     = `C <not01> Ident <op> <value>` | `S <not01> Expr`
+          Ident = `I <operand> <n> Ident*n`
+* `specexpr <ast…>`           — set the expression the SPEC answers are computed from (default: the current one)
+* `ev <ts> <msg> <fields>`    — evaluate on one event: `model=<0|1|err> spec=<0|1|rej> fwf=<0|1>`
+* `match <pattern> <name>`    — path.Match model: `1|0|bad`
+* `value <fields> <name>`     — Fields.Value model: `ok <hex>|panic` then ` spec=<hex|malformed>`
+* `fit.new <min> <max> <n> (<ts> <msg> <fields>)*n` — a fiterator over a list iterator, filter = current expression
+  (`fit.newjump`: the list iterator moves one step on a direction switch)
+* `fit.get` `fit.next` `fit.back <0|1>` `fit.drain` — operations; get → `ok <index>` | `eof`; drain → indices
+* `spec.filter <min> <max> <n> (<ts> <msg> <fields>)*n` — SPEC: indices of the events for which evalRef holds and
+                                 the timestamp is in range
+-/
+open Go Logrange.Where Logrange.FIter Driver
+
+abbrev IEv := Nat × Event
+
+structure St where
+  ups : List (Bytes × Bytes) := []
+  los : List (Bytes × Bytes) := []
+  tss : List (Bytes × Option Int) := []
+  expr : Option Expr := none
+  specExpr : Option (Option Expr) := none
+  built : Except BuildErr Pred := .ok positive
+  fit : FIt (ListPos IEv) IEv := ⟨⟨[], 0, false, false⟩, none, false⟩
+  fitMin : Int := 0
+  fitMax : Int := 0
+
+def St.env (s : St) : Env := tableEnv s.ups s.los s.tss
+
+/-! ### AST parser over tokens (fuel = number of tokens) -/
+
+mutual
+partial def pIdent : List String → Option (Ident × List String)
+  | "I" :: o :: n :: rest => do
+    let (ps, rest') ← pIdList n.toNat! rest
+    pure (.mk (unhex o) ps, rest')
+  | _ => none
+partial def pIdList : Nat → List String → Option (IdList × List String)
+  | 0, r => some (.nil, r)
+  | k+1, r => do
+    let (i, r1) ← pIdent r
+    let (t, r2) ← pIdList k r1
+    pure (.cons i t, r2)
+end
+
+mutual
+partial def pExpr : List String → Option (Expr × List String)
+  | "E" :: n :: rest => pOrs n.toNat! rest
+  | _ => none
+partial def pOrs : Nat → List String → Option (Expr × List String)
+  | 0, r => some (.nil, r)
+  | k+1, r => do
+    let (a, r1) ← pAnd r
+    let (t, r2) ← pOrs k r1
+    pure (.cons a t, r2)
+partial def pAnd : List String → Option (AndL × List String)
+  | "A" :: n :: rest => pXs n.toNat! rest
+  | _ => none
+partial def pXs : Nat → List String → Option (AndL × List String)
+  | 0, r => some (.nil, r)
+  | k+1, r => do
+    let (x, r1) ← pX r
+    let (t, r2) ← pXs k r1
+    pure (.cons x t, r2)
+partial def pX : List String → Option (XCond × List String)
+  | "C" :: n :: rest => do
+    let (id, r1) ← pIdent rest
+    match r1 with
+    | op :: v :: r2 => pure (.cond (n == "1") ⟨id, unhex op, unhex v⟩, r2)
+    | _ => none
+  | "S" :: n :: rest => do
+    let (e, r1) ← pExpr rest
+    pure (.sub (n == "1") e, r1)
+  | _ => none
+end
+
+def errName : BuildErr → String
+  | .operand => "operand" | .tsFunc => "tsfunc" | .tsLiteral => "tsliteral" | .tsOp => "tsop"
+  | .fnArity => "fnarity" | .fnName => "fnname" | .msgOp => "msgop" | .fldOp => "fldop" | .likePattern => "like"
+
+def b01 (b : Bool) : String := if b then "1" else "0"
+
+def parseEvents : Nat → Nat → List String → List IEv
+  | 0, _, _ => []
+  | k+1, i, ts :: m :: f :: rest => (i, ⟨ts.toInt!, unhex m, unhex f⟩) :: parseEvents k (i+1) rest
+  | _, _, _ => []
+
+def fltOf (s : St) : IEv → Bool := fun p => match s.built with | .ok f => f p.2 | .error _ => false
+def rngOf (s : St) : IEv → Bool := fun p => inRange s.fitMin s.fitMax p.2.ts
+
+def specSupported (s : St) (e : Option Expr) : Bool := match e with | none => true | some x => supported s.env x
+
+def step (s : St) (toks : List String) : St × String :=
+  match toks with
+  | ["reset"] => ({}, "ok")
+  | ["case", "U", i, o] => ({ s with ups := (unhex i, unhex o) :: s.ups }, "ok")
+  | ["case", "L", i, o] => ({ s with los := (unhex i, unhex o) :: s.los }, "ok")
+  | ["tslit", v, r] => ({ s with tss := (unhex v, r.toInt?) :: s.tss }, "ok")
+  | ["noexpr"] =>
+    let s' := { s with expr := none, specExpr := none, built := buildWhere s.env none }
+    (s', "build=ok supported=1 wf=1")
+  | "expr" :: rest =>
+    match pExpr rest with
+    | some (e, []) =>
+      let b := buildWhere s.env (some e)
+      let s' := { s with expr := some e, specExpr := none, built := b }
+      (s', s!"build={match b with | .ok _ => "ok" | .error k => "err:" ++ errName k} supported={b01 (supported s.env e)} wf={b01 (wellFormed e)}")
+    | _ => (s, "bad-ast")
+  | "specexpr" :: rest =>
+    match pExpr rest with
+    | some (e, []) => ({ s with specExpr := some (some e) }, s!"supported={b01 (supported s.env e)} wf={b01 (wellFormed e)}")
+    | _ => (s, "bad-ast")
+  | ["ev", ts, m, f] =>
+    let ev : Event := ⟨ts.toInt!, unhex m, unhex f⟩
+    let model := match s.built with | .ok p => b01 (p ev) | .error _ => "err"
+    let se := s.specExpr.getD s.expr
+    let spec := if specSupported s se then b01 (evalWhereRef s.env se ev) else "rej"
+    (s, s!"model={model} spec={spec} fwf={b01 (decide (Logrange.Fields.WF ev.fields))}")
+  | ["match", p, n] =>
+    (s, match Logrange.PathMatch.pathMatch (unhex p) (unhex n) with | none => "bad" | some true => "1" | some false => "0")
+  | ["value", f, n] =>
+    let m := match Logrange.Fields.valueP (unhex f) (unhex n) with | some v => "ok " ++ hex v | none => "panic"
+    let sp := match Logrange.Fields.pairs? (unhex f) with
+      | some ps => hex ((Logrange.Fields.firstValue ps (unhex n)).getD [])
+      | none => "malformed"
+    (s, s!"{m} spec={sp}")
+  | "fit.new" :: mn :: mx :: n :: rest =>
+    let evs := parseEvents n.toNat! 0 rest
+    ({ s with fit := new ⟨evs, 0, false, false⟩, fitMin := mn.toInt!, fitMax := mx.toInt! }, "ok")
+  | "fit.newjump" :: mn :: mx :: n :: rest =>
+    let evs := parseEvents n.toNat! 0 rest
+    ({ s with fit := new ⟨evs, 0, false, true⟩, fitMin := mn.toInt!, fitMax := mx.toInt! }, "ok")
+  | ["fit.get"] =>
+    let (f', r) := get (listIt IEv) (fltOf s) (rngOf s) (s.fit.it.items.length + 2) s.fit
+    ({ s with fit := f' }, match r with | .ok e => s!"ok {e.1}" | .eof => "eof" | .outOfFuel => "fuel")
+  | ["fit.next"] => ({ s with fit := next (listIt IEv) s.fit }, "ok")
+  | ["fit.back", b] => ({ s with fit := setBackward (listIt IEv) (b == "1") s.fit }, "ok")
+  | ["fit.drain"] =>
+    let n := s.fit.it.items.length + 2
+    let out := drain (listIt IEv) (fltOf s) (rngOf s) n n s.fit
+    (s, "ok" ++ String.join (out.map (fun e => s!" {e.1}")))
+  | "spec.filter" :: mn :: mx :: n :: rest =>
+    let evs := parseEvents n.toNat! 0 rest
+    let se := s.specExpr.getD s.expr
+    if !specSupported s se then (s, "rej") else
+    let out := evs.filter (fun p => evalWhereRef s.env se p.2 && inRange mn.toInt! mx.toInt! p.2.ts)
+    (s, "ok" ++ String.join (out.map (fun e => s!" {e.1}")))
+  | _ => (s, "bad-op")
+
+def main (args : List String) : IO Unit := Driver.run step ({} : St) args
